@@ -7,6 +7,7 @@ open PyTrie.Hex PyTrie.Fog
 
 structure St where
   fogs : Array Fog := #[]
+  cache : Frontier Nat := []        -- TrieFrontierCache; nodes are register numbers of the hexary driver
   deriving Inhabited
 
 def pathStr (p : Path) : String :=
@@ -67,6 +68,19 @@ def step (st : St) (cmd : String) (args : List String) : St × String :=
     | some l => match deserialize l with
       | some f => ({ st with fogs := st.fogs.push f }, toString st.fogs.size)
       | none => (st, "exn IndexError")
+  | "cnew", [] => ({ st with cache := [] }, "ok")
+  | "cget", [p] =>
+    match parsePath p with
+    | some p => (st, match Frontier.get st.cache p with | some (r, seg) => s!"hit {r} {pathStr seg}" | none => "miss")
+    | none => bad
+  | "cadd", [p, r, subs] =>
+    match parsePath p, r.toNat?, parsePaths subs with
+    | some p, some r, some subs => ({ st with cache := Frontier.add st.cache p r subs }, "ok")
+    | _, _, _ => bad
+  | "cdel", [p] =>
+    match parsePath p with
+    | some p => ({ st with cache := Frontier.delete st.cache p }, "ok")
+    | none => bad
   | "eq", [i, j] =>
     match getFog i, getFog j with
     | some a, some b => (st, if a = b then "True" else "False")
